@@ -45,6 +45,9 @@ func genCfg(t *rapid.T, role string) rig.Cfg {
 		Sender:         "LIB", Target: "PEER", User: "alice", Pass: "secret",
 	}
 	cfg.HBInt = rapid.IntRange(min, max).Draw(t, "hbInt")
+	if role == "initiator" {
+		cfg.CustomLogon = rapid.IntRange(0, 3).Draw(t, "customLogon") == 0
+	}
 	return cfg
 }
 
@@ -122,6 +125,11 @@ func (g *hgen) logon(spec LogonSpec) *rig.InMsg {
 		g.maxHB = hb
 	}
 	m := &rig.InMsg{Type: rig.TLogon, Seq: g.seq(), Fields: fields, Note: fmt.Sprintf("logon hb=%s method=%s creds=%s", spec.HB, spec.Method, spec.Creds)}
+	if (spec.HB == "below" || spec.HB == "above" || spec.Method == "disallowed" || spec.Creds == "bad") && rapid.IntRange(0, 4).Draw(g.t, "seqZero") == 0 {
+		// a Logon that is refused for what it asks for, numbered 0: the Reject quotes that number like any other
+		m.Seq = "0"
+		m.Note += " seq=0"
+	}
 	switch rapid.IntRange(0, 11).Draw(g.t, "logonExtra") {
 	case 0:
 		m.Fields = append(m.Fields, rig.F(rig.TagResetSeqNumFlag, "Y")) // changes nothing about who may log on
@@ -196,7 +204,7 @@ func LogonVerdict(cfg *rig.Cfg, m *rig.InMsg) (verdict string, badTags []string)
 			pass = f.Val
 		}
 	}
-	if _, err := strconv.Atoi(m.Seq); (err != nil || m.NoSeq) {
+	if _, err := strconv.Atoi(m.Seq); err != nil || m.NoSeq {
 		return "unparsable", nil
 	}
 	for _, f := range m.PreSeq {
@@ -304,8 +312,17 @@ func (g *hgen) resend(b, e int) *rig.InMsg {
 }
 
 func (g *hgen) app() *rig.InMsg {
-	typ := rapid.SampledFrom([]string{"Y", "V", "D", "8", "ZZ", "W"}).Draw(g.t, "appType")
+	typ := rapid.SampledFrom([]string{"Y", "V", "D", "8", "ZZ", "W", "a", "a", "AA", "A0"}).Draw(g.t, "appType")
 	m := &rig.InMsg{Type: typ, Seq: g.seq(), Fields: []rig.Tok{rig.F(rig.TagMDReqID, "r"+itoa(g.inSeq))}}
+	if typ == "a" || typ == "AA" || typ == "A0" {
+		// an application message whose type only resembles the Logon's (35=a is QuoteStatusRequest; types are case
+		// sensitive and compared whole), carrying everything an acceptable Logon would: it is not a Logon
+		hb := g.cfg.HBMin
+		if g.cfg.Role == "initiator" {
+			hb = g.cfg.HBInt
+		}
+		m.Fields = append(m.Fields, rig.F(rig.TagEncryptMethod, g.cfg.Methods[0]), rig.F(rig.TagHeartBtInt, itoa(hb)), rig.F(rig.TagUsername, "alice"), rig.F(rig.TagPassword, "secret"))
+	}
 	if rapid.IntRange(0, 3).Draw(g.t, "appDecoy") == 0 {
 		// fields whose tag or value only LOOKS like a session-level field (MsgType 35, MsgSeqNum 34, CheckSum 10)
 		m.Fields = append(m.Fields, rapid.SampledFrom([]rig.Tok{rig.F("435", "4"), rig.F("135", "4"), rig.F("1035", "A"), rig.F("134", "1"), rig.F("58", "x35=4"), rig.F("58", "34=1"), rig.F("110", "5"), rig.F("58", "ends with 35=4")}).Draw(g.t, "appDecoyField"))
@@ -364,7 +381,7 @@ func isPlain(s string) bool {
 
 // damage applies one kind of damage to a message.
 func damage(t *rapid.T, m *rig.InMsg) *rig.InMsg {
-	m.Damage = rapid.SampledFrom([]string{"checksum", "bodylength"}).Draw(t, "damage")
+	m.Damage = rapid.SampledFrom([]string{"checksum", "bodylength", "checksum", "bodylength", "leading-field", "trailing-field"}).Draw(t, "damage")
 	m.DamageBy = rapid.IntRange(0, 300).Draw(t, "damageBy")
 	return m
 }
